@@ -631,12 +631,13 @@ PROPS["C01"] = dict(
                  "raw_value: the analogous reading of $serde_json::private::RawValue (the string is re-parsed as JSON) is NOT modelled: "
                  "open finding C01-rv-private-rawvalue-token, whose signature still covers the model disagreements on those inputs"],
     partial=["c01_ap_accepts_iff (the accepted language of the faithful model under arbitrary_precision = RFC 8259 texts with the side "
-             "conditions in which every token-first object is { token : \"number literal\" }) states the shape clause on the run of "
-             "the byte-step machine (TokenTailsOK: at every position where the machine has read a first key equal to the token and "
-             "sees the colon, a TokenTail follows), not on the syntax tree (Spec.PrivateToken.TokenShaped); the equivalence of the two "
-             "formulations is not proved. Purely syntactic formulations are proved for two families (c01_ap_accepts_iff_partial): "
-             "inputs in which no first key decodes to the token (lexical scan of the bytes, or tokenFree on the tree) and documents "
-             "that are themselves a token-first object",
+             "conditions in which every token-first object is { token : \"number literal\" }) states the shape clause on the BYTES "
+             "(Spec.PrivateToken.TokenObjectsShaped: every string literal that stands directly after a { - the lexical scan is "
+             "outside string literals there - and decodes to the token is followed by ws : ws \"number literal\" ws }), not on "
+             "the syntax tree (Spec.PrivateToken.TokenShaped); the equivalence of the two formulations on JSON texts is not proved "
+             "(it needs the unambiguity of the grammar). Tree-level formulations are proved for two families "
+             "(c01_ap_accepts_iff_partial): inputs in which no first key decodes to the token and documents that are themselves a "
+             "token-first object",
              "raw_value: objects whose first key is the private RawValue token are outside both models (open finding; the models side "
              "with RFC 8259, the crate does not)"],
     technique="Lean 4 theorem c01_accepts_iff: the byte-step machine accepts exactly an inductive RFC 8259 grammar plus the stated side "
@@ -662,8 +663,9 @@ PROPS["C01"] = dict(
                "c01_ap_accepts_iff_partial; c01_ap_sound (EVERY input: what the faithful model accepts is an RFC 8259 text meeting the "
                "side conditions - the token reading never admits non-JSON; by running MachineAp and the machine side by side: the "
                "machine's control flow never inspects collected values, step1_eqv) and c01_ap_accepts_iff (the faithful model accepts "
-               "exactly the texts the machine accepts in which, at every first key equal to the token, the rest of the object is "
-               ": \"number literal\" } ).",
+               "exactly the RFC 8259 texts meeting the side conditions in which every string literal directly after a { that decodes "
+               "to the token is followed by ws : ws \"number literal\" ws } - a clause on the bytes, mentioning neither model nor run; "
+               "c01_ap_accepts_iff_run: the same with the clause on the machine's run).",
     level_note="Trusted: Lean kernel + 3 standard axioms; extract.py (depth 128, whitespace set, literals, number::TOKEN and the "
                "fingerprints of KeyClassifier / visit_map / NumberFromString / end_map / Number::from_str regenerated); harness/driver; "
                "the hand-written models Model.Machine and Model.MachineAp validated by correspondence (0 disagreements over all "
